@@ -224,6 +224,11 @@ func (c *Ctx) dispatch(st *State, call *ast.CallExpr, fn *types.Func, recv *Val,
 		}
 	}
 	if isIfaceMethod && recv != nil {
+		if rs, ok := c.devirtCall(st, call, fn, recv, args); ok {
+			return rs
+		}
+	}
+	if isIfaceMethod && recv != nil {
 		c.addObl(st, "nilcall", c.ordOf(call.Fun, "nil"), "(not (= (itag "+recv.T+") 0))", "method call "+types.ExprString(call.Fun)+" on nil interface at "+c.pos(call))
 	}
 	c.note("call without contract: heap havoc'd: " + fn.FullName())
@@ -487,7 +492,7 @@ func (c *Ctx) evalBuiltin(st *State, call *ast.CallExpr, name string) []Val {
 			c.nfr++
 			j := fmt.Sprintf("j!q%d", c.nfr)
 			st.assume(fmt.Sprintf("(forall ((%s Int)) (! (=> (and (<= 0 %s) (< %s %s)) (= %s %s)) :pattern (%s)))", j, j, j, sLen(s), sAt(r, j), sAt(s, j), sel(sArr(r), j)))
-			st.assume(fmt.Sprintf("(forall ((%s Int)) (! (=> (and (<= 0 %s) (< %s %s)) (= %s %s)) :pattern (%s)))", j, j, j, sLen(t), sel(sArr(r), "(+ "+sLen(s)+" "+j+")"), sAt(t, j), sel(sArr(r), "(+ "+sLen(s)+" "+j+")")))
+			st.assume(fmt.Sprintf("(forall ((%s Int)) (! (=> (and (<= %s %s) (< %s (+ %s %s))) (= %s %s)) :pattern (%s)))", j, sLen(s), j, j, sLen(s), sLen(t), sel(sArr(r), j), sel(sArr(t), "(- "+j+" "+sLen(s)+")"), sel(sArr(r), j)))
 			return []Val{r}
 		}
 		cur := s
@@ -827,4 +832,75 @@ func (c *Ctx) fieldKeyOf(t types.Type, field string) (string, Sort, error) {
 		}
 	}
 	return "", "", fmt.Errorf("no field %s in %s", field, t)
+}
+
+// devirtCall: the dynamic type of values of some interfaces is declared (`devirt I => T`): the method of *T
+// is inlined from its source, so its nil-safety is derived rather than written by hand.
+// devirtTarget resolves an interface method call to the method of the declared dynamic type.
+func (c *Ctx) devirtTarget(info *types.Info, call *ast.CallExpr, fn *types.Func) (*FuncInfo, types.Type) {
+	sig := fn.Type().(*types.Signature)
+	if sig.Recv() == nil {
+		return nil, nil
+	}
+	named, _ := types.Unalias(sig.Recv().Type()).(*types.Named)
+	// the static receiver type at the call site decides (the method may be declared in an embedded interface)
+	var statNamed *types.Named
+	if sel, ok := unparen(call.Fun).(*ast.SelectorExpr); ok {
+		if t := info.TypeOf(sel.X); t != nil {
+			statNamed, _ = types.Unalias(t).(*types.Named)
+		}
+	}
+	var conc string
+	for _, n := range []*types.Named{statNamed, named} {
+		if n == nil || n.Obj().Pkg() == nil {
+			continue
+		}
+		if cn, ok := c.eng.cs.Devirt[n.Obj().Pkg().Path()+"."+n.Obj().Name()]; ok {
+			conc = cn
+			break
+		}
+	}
+	if conc == "" {
+		return nil, nil
+	}
+	ct := c.eng.lookupNamed(conc)
+	if ct == nil {
+		return nil, nil
+	}
+	pt := types.NewPointer(ct)
+	obj, _, _ := types.LookupFieldOrMethod(pt, true, nil, fn.Name())
+	m, ok := obj.(*types.Func)
+	if !ok {
+		return nil, nil
+	}
+	fi := c.eng.funcs[m.FullName()]
+	if fi == nil || !(inlinable(fi.Decl) || c.eng.cs.Inline[m.FullName()]) {
+		return nil, nil
+	}
+	return fi, ct
+}
+
+func (c *Ctx) devirtCall(st *State, call *ast.CallExpr, fn *types.Func, recv *Val, args []Val) ([]Val, bool) {
+	fi, ct := c.devirtTarget(c.info, call, fn)
+	if fi == nil || st.depth >= 6 {
+		return nil, false
+	}
+	m := fi.Obj
+	pt := types.NewPointer(ct)
+	if c.prefix == "" && c.unit.Contract != nil && c.unit.Contract.Flags["nilcalls"] {
+		c.addObl(st, "nilcall", fmt.Sprintf("nilcall@%s#%d", types.ExprString(call.Fun), c.callOrd[call]), "(not (= (itag "+recv.T+") 0))", "method call "+types.ExprString(call.Fun)+" on a nil interface at "+c.pos(call))
+	}
+	st.assume("(not (= (itag " + recv.T + ") 0))")
+	c.note("devirtualised " + fn.FullName() + " to " + m.FullName() + " (declared dynamic type)")
+	// the declared dynamic type: the tag is that of *T
+	st.assume(fmt.Sprintf("(= (itag %s) %d)", recv.T, c.eng.typeTag(pt)))
+	rv := Val{T: "(iref " + recv.T + ")", S: "Int", GT: pt}
+	// value-receiver methods of T: load the struct
+	msig := m.Type().(*types.Signature)
+	if _, isPtr := msig.Recv().Type().Underlying().(*types.Pointer); !isPtr {
+		c.addObl(st, "nil", c.ordOf(call.Fun, "nil"), "(not (= "+rv.T+" 0))", "nil dereference for value receiver at "+c.pos(call))
+		st.assume("(not (= " + rv.T + " 0))")
+		rv = c.cellRead(st, rv.T, ct)
+	}
+	return c.inlineCall(st, call, fi, &rv, args), true
 }
